@@ -542,6 +542,8 @@ func c07Scenarios(tier string) []c07Params {
 		{Name: "set-live", Pre: pre, Conns: [][][]string{one("SET k a POINT 1.001 1.001")}, Live: true},
 		{Name: "set-del-vs-aofshrink", Pre: pre, Conns: [][][]string{two("SET k a POINT 3 3", "DEL k b"), one("SET k c POINT 4 4")}, Shrink: true, QuickBound: 1},
 		// a write racing with the command that makes the server read-only: once READONLY is answered no write takes effect
+		{Name: "second-aofshrink-and-sets-vs-aofshrink", Pre: pre, Conns: [][][]string{two("AOFSHRINK", "SET k c POINT 4 4"), one("SET k d POINT 5 5")}, Shrink: true, QuickBound: 1,
+			Model: map[string][][]string{"0.0": {}}},
 		{Name: "set-vs-readonly", Pre: pre, Conns: [][][]string{one("SET k a POINT 3 3"), two("READONLY yes", "GET k a")}},
 		// a non-atomic script's write against a plain write on the same object (apply order = log order)
 		{Name: "evalna-vs-set", Pre: pre, Conns: [][][]string{{{"EVALNA", "return tile38.call('SET','k','a','POINT',7,7)", "0"}}, one("SET k a POINT 3 3")}, Model: map[string][][]string{"0.0": {w("SET k a POINT 7 7")}}},
